@@ -20,5 +20,6 @@ class EvaluateStep(GeneticStep):
         target_size: int,
         generation: int,
     ) -> Iterator[Individual]:
-        evaluator.evaluate(problem, population)
-        yield from population
+        individuals = list(population)
+        evaluator.evaluate(problem, individuals)
+        yield from individuals[:target_size]
